@@ -145,3 +145,95 @@ TRUSTED = ["AccumulateGrad nodes <-> leaf tensors requiring grad; grad_fn.next_f
            "the deque is abstracted to the set of queued nodes; termination of the traversal is not proved"]
 ASSUMPTIONS = ["C12: the wrappers (_get_leaf_tensors, the defaults of backward / mtl_backward, the overlap rejection) are decided by the "
                "bounded arm (random DAGs with multi-output ops against an independent edge-level DFS)"]
+
+
+# ----------------------------------------------------------------------------- the defaults of backward / mtl_backward
+
+
+def defaults_check(H):
+    """Plumbing of the defaults: backward(inputs=None) uses _get_leaf_tensors(tensors, excluded = nothing);
+    mtl_backward(shared_params=None) uses _get_leaf_tensors(features, nothing); mtl_backward(tasks_params=None) uses, for
+    each loss IN ORDER, _get_leaf_tensors([loss_i], excluded = features); and the discovered sets are used exactly like
+    explicit arguments (they flow into the same variables).  _get_leaf_tensors itself = AccumulateGrad variables of the
+    traversal result (set comprehension over the node set) — its traversal is the contract above."""
+    from tjv.pyvc.lten import AbstractAgg, Heap
+    from . import autojac as A
+    AJ, TR = A.AJ, A.TR
+
+    def body(cx):
+        calls, returned = [], []
+
+        def leaf_contract(interp, args, kwargs):
+            tensors = kwargs.get("tensors", args[0] if args else None)
+            excluded = kwargs.get("excluded", args[1] if len(args) > 1 else None)
+            calls.append((tensors, excluded))
+            S = V.SymSet(interp.cx, f"leaves{len(calls)}")
+            returned.append(S)
+            return S
+        captured = []
+
+        def capture(interp, args, kwargs):
+            captured.append(args[0])
+            return None
+        ov = dict(A.SUMMARIES)
+        ov[f"{AJ}._utils._get_leaf_tensors"] = leaf_contract
+        ov[f"{TR}.base.Transform.__call__"] = capture
+        it = H.interp(cx, loop_specs=A.LOOPS, overrides=ov)
+        cx.ghost["heap"] = Heap(cx)
+        which = cx.choose(2, "entry")
+        agg = AbstractAgg(cx, may_raise=False)
+        if which == 0:
+            T = A.tensor_list(cx, "T", distinct=True, min_len=1)
+            kind, out = call_catch(lambda: it.call(H.repo.get(f"{AJ}.backward.backward"), [T, agg, None, False, None]))
+            cx.oblige("C12.backward_default.no_raise", kind == "return", where=str(getattr(out, "where", "")))
+            cx.oblige("C12.backward_default.one_discovery_call", len(calls) == 1)
+            if len(calls) == 1 and kind == "return":
+                t, e = calls[0]
+                j = cx.fresh_int("j")
+                same = z3.And(lift(t.length) == T.length, z3.Implies(z3.And(0 <= j, j < T.length), t.get(j).ref == T.get(j).ref)) if isinstance(t, V.SymSeq) else False
+                cx.oblige("C12.backward_default.roots_are_the_tensors", same)
+                cx.oblige("C12.backward_default.nothing_excluded", isinstance(e, (set, list)) and len(e) == 0)
+                # the discovered set is used exactly as an explicit `inputs` set: it is the key set of Jac / Aggregate / Accumulate
+                from .C02 import flatten_composition
+                chain = flatten_composition(captured[0]) if captured else []
+                acc = [o for o in chain if getattr(getattr(o, "cls", None), "name", "") == "Accumulate"]
+                rk = acc[0].attrs["_required_keys"] if len(acc) == 1 else None
+                cx.oblige("C12.backward_default.discovered_set_is_accumulated",
+                          (rk.arr == returned[0].arr) if isinstance(rk, V.SymSet) else False)
+        else:
+            F = A.tensor_list(cx, "F", distinct=True, min_len=1)
+            t_n = 2
+            losses = [V.TRef(z3.Const(f"loss{i}", A.TenS)) for i in range(t_n)]
+            for L in losses:
+                cx.assume(z3.simplify(P_ndim(L)) == 0)
+            kind, out = call_catch(lambda: it.call(H.repo.get(f"{AJ}.mtl_backward.mtl_backward"), [list(losses), F, agg], {}))
+            if kind != "return":
+                # the only legitimate rejection of a defaulted call is the overlap of the two default sets
+                cx.oblige("C12.mtl_default.rejection_is_the_overlap_ValueError", out.cls == "ValueError" and len(calls) == 1 + t_n,
+                          where=str(getattr(out, "where", "")))
+                return
+            cx.oblige("C12.mtl_default.discovery_calls", len(calls) == 1 + t_n)
+            if len(calls) != 1 + t_n:
+                return
+            j = cx.fresh_int("j")
+
+            def is_F(x):
+                return z3.And(lift(x.length) == F.length, z3.Implies(z3.And(0 <= j, j < F.length), x.get(j).ref == F.get(j).ref)) if isinstance(x, V.SymSeq) else False
+            t0, e0 = calls[0]
+            cx.oblige("C12.mtl_default.shared_from_features_nothing_excluded", z3.And(is_F(t0), isinstance(e0, (list, set)) and len(e0) == 0))
+            for i in range(t_n):
+                ti, ei = calls[1 + i]
+                ok_roots = isinstance(ti, list) and len(ti) == 1 and isinstance(ti[0], V.TRef)
+                cx.oblige(f"C12.mtl_default.task{i}_from_its_loss_excluding_the_features",
+                          z3.And(ti[0].ref == losses[i].ref, is_F(ei)) if ok_roots else False)
+    H.explore(body, max_paths=3000)
+
+
+def P_ndim(L):
+    from tjv.pyvc.values import ShapeS, U
+    return U("ndim", z3.IntSort(), U("shape", ShapeS, L.ref))
+
+
+from tjv.pyvc.values import lift  # noqa: E402,F811
+CHECKS.append(Check("defaults", ["torchjd.autojac.backward.backward", "torchjd.autojac.mtl_backward.mtl_backward"], defaults_check,
+                    replay_keys=["C12."]))
